@@ -481,7 +481,7 @@ func (p *Prog) replayObligation(r *OblResult, workdir, outDir string) *ReplayOut
 		os.WriteFile(out.Path, []byte(report.String()), 0o644)
 		return out
 	}
-	if r.Res.Verdict != "sat" {
+	if r.Res.Verdict != "sat" && !r.Relaxed {
 		out.Skipped = "no model (" + r.Res.Verdict + ")"
 		fmt.Fprintf(&report, "replay: skipped, %s\n", out.Skipped)
 		return finish()
@@ -496,7 +496,7 @@ func (p *Prog) replayObligation(r *OblResult, workdir, outDir string) *ReplayOut
 		return finish()
 	}
 	pre := e.finishPreamble()
-	query := e.buildQuery(pre, r.O, false)
+	query := e.buildQueryX(pre, r.O, false, r.Relaxed)
 	rc := &replayCtx{e: e, work: workdir, query: query, imports: map[string]bool{}, pkg: fn.Pkg.Pkg}
 	// shrink: cap = len, off = 0, small lengths; distinct regions for distinct slice parameters
 	var shrink []string
@@ -624,15 +624,15 @@ func (p *Prog) replayObligation(r *OblResult, workdir, outDir string) *ReplayOut
 		fmt.Fprintf(&macros, "func %s(%s) %s { return %s }\n", sf.Name, strings.Join(ps, ", "), sf.RType, g)
 	}
 	var src strings.Builder
-	fmt.Fprintf(&src, "package %s\n\nimport (\n\t\"fmt\"\n\t\"testing\"\n", fn.Pkg.Pkg.Name())
+	fmt.Fprintf(&src, "package %s\n\nimport (\n\t\"fmt\"\n\t\"runtime/debug\"\n\t\"testing\"\n", fn.Pkg.Pkg.Name())
 	for ip := range rc.imports {
 		fmt.Fprintf(&src, "\t%q\n", ip)
 	}
 	src.WriteString(")\n")
 	src.WriteString(replayHelpers)
 	src.WriteString(macros.String())
-	src.WriteString("\nvar _ = fmt.Sprint\n\nfunc TestACVReplay(t *testing.T) {\n")
-	src.WriteString("\tdefer func() {\n\t\tif r := recover(); r != nil {\n\t\t\tfmt.Println(\"ACV-REPLAY-PANIC:\", r)\n\t\t}\n\t}()\n")
+	src.WriteString("\nvar _ = fmt.Sprint\nvar _ = debug.Stack\n\nfunc TestACVReplay(t *testing.T) {\n")
+	src.WriteString("\tdefer func() {\n\t\tif r := recover(); r != nil {\n\t\t\tfmt.Println(\"ACV-REPLAY-PANIC:\", r)\n\t\t\tfmt.Println(string(debug.Stack()))\n\t\t}\n\t}()\n")
 	src.WriteString(body.String())
 	src.WriteString("\tfmt.Println(\"ACV-REPLAY-RETURNED\")\n}\n")
 	testSrc := src.String()
@@ -644,10 +644,12 @@ func (p *Prog) replayObligation(r *OblResult, workdir, outDir string) *ReplayOut
 	case res != nil:
 		out.Skipped = "replay could not be run: " + res.Error()
 	case strings.Contains(runOut, "ACV-REPLAY-PANIC:"):
-		if r.O.Kind != "ensures" && r.O.Kind != "site-assert" {
+		// only a panic raised at the obligation's own source position reproduces it (the generated
+		// inputs may violate A12 elsewhere, e.g. nil collaborators)
+		if r.O.Pos != "" && strings.Contains(runOut, "/"+r.O.Pos) && r.O.Kind != "ensures" && r.O.Kind != "site-assert" {
 			out.Reproduced = true
 		} else {
-			out.Reproduced = true // a panic is a violation of any postcondition of a total function
+			out.Skipped = "replay panicked at a different position than the obligation's"
 		}
 	case strings.Contains(runOut, "ACV-REPLAY-POST: false"):
 		out.Reproduced = true
